@@ -315,6 +315,28 @@ def option_histories(ctx):
                 'what': 'IGNORE_EXCEPTION_DETAIL written inside an earlier statement decides how a later expected exception is compared: passed=%r, by construction [False]' % (got,),
                 'history': docs, 'default_runtime_state': {}, 'expected_pass': [False],
                 'theorem_or_correspondence': 'C03 on DocTest.run with an inline flag of an earlier statement'}, True)
+    # 'after an expected exception the following statements still run' - wherever the next prompt stands: directly behind the traceback
+    # want, at the same, a smaller or a larger indentation (a statement that must surface as THE failure of the doctest)
+    for lead, ind1, ind2 in (('', 0, 0), ('Intro text.\n', 4, 0), ('Intro text.\n', 4, 2), ('', 0, 4), ('Note:\n', 8, 4)):
+        doc = (lead + ' ' * ind1 + ">>> raise ValueError('a')\n" + ' ' * ind1 + HDR + '\n' + ' ' * ind1 + 'ValueError: a\n' +
+               ' ' * ind2 + ">>> raise RuntimeError('must surface')\n")
+        from xdoctest import doctest_example as _de
+        import contextlib as _cl, io as _io
+        ex = _de.DocTest(docsrc=doc, lineno=1)
+        with _cl.redirect_stdout(_io.StringIO()):
+            try:
+                s = ex.run(verbose=0, on_error='return')
+                got = ('failed' if s['failed'] else 'passed' if s['passed'] else 'skipped', type(s['exc_info'][1]).__name__ if s['exc_info'] else None)
+            except BaseException as e:      # noqa
+                got = ('raised', type(e).__name__)
+        n += 1
+        if ind2 > ind1:
+            continue      # a prompt indented MORE than the source above it is known finding F8b of C13 (labelled want): no expectation here
+        if got != ('failed', 'RuntimeError'):
+            ctx.violation('exception-history', {
+                'what': 'the statement behind an expected exception (next prompt at indentation %d, the raising example at %d): outcome %r, by construction failed with RuntimeError' % (ind2, ind1, got),
+                'history': [doc], 'default_runtime_state': {}, 'expected_pass': [False],
+                'theorem_or_correspondence': 'C03: after an expected exception the following statements still run'}, True)
     ctx.evaluations += n
     ctx.count('option_histories', n)
 
